@@ -8,7 +8,8 @@ Optional: CONFIRM=/path/to/confirm_mutants.out adds the scratch-worktree confirm
 """
 import sys, os, re, json, glob, shutil, subprocess, time
 
-V = "/verif"
+V = os.environ.get("VERIF_ROOT", "/verif")
+REPO = os.environ.get("VERIF_REPO", "/repo")
 
 
 def sh(cmd, **kw):
@@ -38,7 +39,7 @@ def main():
                 json.dump(meta, open(mp, "w"), indent=1)
         write_matrix()
         return 0
-    rc, out = sh("git -C /repo status --porcelain")
+    rc, out = sh("git -C %s status --porcelain" % REPO + "")
     if out.strip():
         print("/repo not clean"); return 2
     bak = V + "/work/evidence.bak"
@@ -63,7 +64,7 @@ def main():
                     "how": "scratch worktree of /repo HEAD: demonstration passes without the change; git apply patch.diff; "
                            "go build ./...; the repository's test suite (BASELINE command) passes; demonstration fails with the change",
                     "result": confirm[name]}
-            rc, out = sh("git -C /repo apply %s/patch.diff" % d)
+            rc, out = sh("git -C %s apply %s/patch.diff" % (REPO, d))
             if rc != 0:
                 meta["detection"] = {"error": "patch does not apply: " + out[-300:]}
                 json.dump(meta, open(meta_p, "w"), indent=1)
@@ -88,11 +89,11 @@ def main():
                     det[p] = r
                     print(name, p, "exit", rc, (vl[0] if vl else "NOT DETECTED"), flush=True)
             finally:
-                sh("git -C /repo checkout -- .")
+                sh("git -C %s checkout -- . ; git -C %s clean -fdq" % (REPO, REPO))
             meta["detection"] = det
             json.dump(meta, open(meta_p, "w"), indent=1)
     finally:
-        sh("git -C /repo checkout -- .")
+        sh("git -C %s checkout -- . ; git -C %s clean -fdq" % (REPO, REPO))
         shutil.rmtree(V + "/evidence", ignore_errors=True)
         shutil.move(bak, V + "/evidence")
     write_matrix()
